@@ -1,60 +1,18 @@
-import OxiModel.Basic
-import OxiModel.Filters
+import Driver.Filters
+import Driver.Geom
 /-
   oxidriver: line protocol over the executable model.
   One request per line: `<op> <arg> ...`; one answer line per request.
   Bytes travel as lowercase hex ("-" = empty).
 -/
-open OxiModel
-
 namespace Driver
 
-def natArg (s : String) : Option Nat := s.toNat?
-
-/-- FNV-1a style 64-bit digest step (shared with the Rust harness). -/
-def fnv (h : UInt64) (b : UInt8) : UInt64 := (h ^^^ b.toUInt64) * 1099511628211
-
-def paethDigest (lo hi : Nat) : UInt64 := Id.run do
-  let mut h : UInt64 := 14695981039346656037
-  for a in [lo:hi] do
-    for b in [0:256] do
-      for c in [0:256] do
-        h := fnv h (paeth (UInt8.ofNat a) (UInt8.ofNat b) (UInt8.ofNat c))
-  return h
+def handlers : List (List String → Option String) := [handleFilters, handleGeom]
 
 def handle (args : List String) : String :=
-  match args with
-  | ["filter_line", ft, bpp, d, p] =>
-    match natArg ft, natArg bpp, ofHex d, ofHex p with
-    | some ft, some bpp, some d, some p =>
-      match filterLine ft bpp d p with
-      | some out => "ok " ++ toHex out
-      | none => "panic"
-    | _, _, _, _ => "bad-args"
-  | ["unfilter_line", ft, bpp, d, p] =>
-    match natArg ft, natArg bpp, ofHex d, ofHex p with
-    | some ft, some bpp, some d, some p =>
-      match unfilterLine ft bpp d p with
-      | some (some out) => "ok " ++ toHex out
-      | some none => "err"
-      | none => "panic"
-    | _, _, _, _ => "bad-args"
-  | ["spec_recon", ft, bpp, d, p] =>
-    match natArg ft, natArg bpp, ofHex d, ofHex p with
-    | some ft, some bpp, some d, some p =>
-      match Spec.recon ft bpp d p with
-      | some out => "ok " ++ toHex out
-      | none => "err"
-    | _, _, _, _ => "bad-args"
-  | ["paeth_digest", lo, hi] =>
-    match natArg lo, natArg hi with
-    | some lo, some hi => "ok " ++ toString (paethDigest lo hi).toNat
-    | _, _ => "bad-args"
-  | ["paeth", a, b, c] =>
-    match natArg a, natArg b, natArg c with
-    | some a, some b, some c => "ok " ++ toString (paeth (UInt8.ofNat a) (UInt8.ofNat b) (UInt8.ofNat c)).toNat
-    | _, _, _ => "bad-args"
-  | _ => "bad-op"
+  match handlers.findSome? (fun h => h args) with
+  | some r => r
+  | none => "bad-op"
 
 partial def loop (hin : IO.FS.Stream) (hout : IO.FS.Stream) : IO Unit := do
   let line ← hin.getLine
